@@ -49,6 +49,10 @@ func (s *StorageClient) Set(key string, item *mc.Item, noreply bool) (bool, erro
 	if !store.IsValidKeyString(key) {
 		return false, nil
 	}
+	if item.Exptime < 0 {
+		// the exptime field carries the revision: negative revisions are reserved for deletes
+		return false, nil
+	}
 	ki := s.prepare(key, false)
 	payload := &store.Payload{}
 	payload.Flag = uint32(item.Flag)
